@@ -259,6 +259,10 @@ class NumInterp(Interp):
             'sqrt': np.sqrt, 'exp': np.exp, 'kron': np.kron, 'cos': np.cos, 'sin': np.sin, 'conj': np.conj, 'pi': np.pi,
             'complex128': complex, 'complex64': complex, 'float64': float,
         }
+        import math as _math
+        import cmath as _cmath
+        self.mathfuncs = {'math': {k: getattr(_math, k) for k in ('pi', 'cos', 'sin', 'sqrt', 'floor', 'ceil', 'e', 'exp', 'tau', 'atan2', 'acos', 'asin')},
+                          'cmath': {k: getattr(_cmath, k) for k in ('exp', 'sqrt', 'pi', 'phase', 'cos', 'sin')}}
         self.builtins = {'range': range, 'len': len, 'list': list, 'tuple': tuple, 'enumerate': enumerate, 'sum': sum,
                          'int': int, 'float': float, 'complex': complex, 'abs': abs, 'max': max, 'min': min, 'zip': zip}
 
@@ -269,9 +273,19 @@ class NumInterp(Interp):
             if n.attr in self.npfuncs:
                 return self.npfuncs[n.attr]
             raise Unsupported(f'numpy.{n.attr} not in the whitelist')
+        if isinstance(n, ast.Attribute) and isinstance(n.value, ast.Name) and n.value.id in self.mathfuncs and n.value.id not in self.env:
+            if n.attr in self.mathfuncs[n.value.id]:
+                return self.mathfuncs[n.value.id][n.attr]
+            raise Unsupported(f'{n.value.id}.{n.attr} not in the whitelist')
         if isinstance(n, (ast.ListComp, ast.GeneratorExp)):
             return self._comp(n, 0, [])
         if isinstance(n, ast.Call):
+            if isinstance(n.func, ast.Attribute) and n.func.attr in ('conjugate', 'conj') and not n.args:
+                v = self.ev(n.func.value)
+                if isinstance(v, (int, float, complex)):
+                    return complex(v).conjugate()
+                if isinstance(v, self.np.ndarray):
+                    return self.np.conj(v)
             if isinstance(n.func, ast.Attribute) and n.func.attr == 'append':
                 recv = self.ev(n.func.value)
                 if isinstance(recv, list):
@@ -304,6 +318,8 @@ class NumInterp(Interp):
                 return v[n.attr]
             if isinstance(v, self.np.ndarray) and n.attr in ('T', 'shape', 'real', 'imag'):
                 return getattr(v, n.attr)
+            if isinstance(v, (int, float, complex)) and n.attr in ('real', 'imag'):
+                return getattr(complex(v), n.attr)
             raise Unsupported(f'attribute {ast.unparse(n)}')
         return super().ev(n)
 
